@@ -621,9 +621,13 @@ V("neutral-sqlstate-local", N, "C07", None,
             state = err.sqlstate
             self._sqlstate = state
             raise"""))
-V("neutral-variables-compiled-pattern", N, "C15", None,
+# (an ASCII-only continuation class is *not* neutral: `$idé` is then rewritten with the value of `id` — found by a batch-15 sub-agent)
+V("c15-ascii-only-name-boundary", A, "C15", "C15.b",
   ("variables", """            sql = re.sub(rf"\\${name}(?!\\w)", lambda _, v=value: v, sql, flags=re.IGNORECASE)""",
    """            sql = re.sub(rf"\\${name}(?![A-Za-z0-9_])", lambda _, v=value: v, sql, flags=re.IGNORECASE)"""))
+V("neutral-variables-word-class-boundary", N, "C15", None,
+  ("variables", """            sql = re.sub(rf"\\${name}(?!\\w)", lambda _, v=value: v, sql, flags=re.IGNORECASE)""",
+   """            sql = re.sub(rf"\\${name}(?![\\w])", lambda _, v=value: v, sql, flags=re.IGNORECASE)"""))
 V("neutral-merge-then-name-lower", N, ["C12", "C02"], None,
   ("transforms_merge", """            if isinstance(then, exp.Var) and then.name.upper() == "DELETE":
                 delete_sql""", """            if isinstance(then, exp.Var) and then.name.lower() == "delete":
@@ -1045,3 +1049,18 @@ V("c15-executemany-raw-command-under-qmark", A, "C15", "C15.l",
         for p in seqparams:
             self.execute(command, p)
 """))
+V("c05-close-rewinds-fetch-index", A, "C05", "C05.j",
+  ("cursor", """        self._last_sql = None
+        self._last_params = None
+        return True""", """        self._last_sql = None
+        self._last_params = None
+        self._arrow_table_fetch_index = None
+        return True"""))
+V("c05-neutral-close-drops-result", N, "C05", None,
+  ("cursor", """        self._last_sql = None
+        self._last_params = None
+        return True""", """        self._last_sql = None
+        self._last_params = None
+        self._arrow_table_fetch_index = None
+        self._arrow_table = None
+        return True"""))
